@@ -173,7 +173,7 @@ class C01(Spec):
             length = rnd.choice([20, 40, 80, 150]) if tier == 'quick' else rnd.choice([40, 100, 200, 400])
             nkeys = rnd.choice([1, 2, 3, 5, 8, 16])
             cases.append(T.random_history(rnd, kind, 'rnd%d' % ci, target, length, nkeys))
-        return cases
+        return cases + T.deep_cases()
 
 
 SPEC = C01()
